@@ -1,4 +1,50 @@
+"""./check <ID> --replay <file>: re-run a recorded violation against /repo's current tree.
+exit 1 = reproduces, 0 = no longer reproduces, 2 = cannot tell."""
 import json
+import os
+import subprocess
+import sys
+
+from . import gen, native, cex
+
+VERIF = os.path.dirname(os.path.dirname(os.path.abspath(__file__)))
+REPO = os.environ.get('VERIF_REPO', '/repo')
+
+
 def run(prop, path):
-    print('replay not yet implemented')
-    return 2
+    try:
+        rec = json.load(open(path, encoding='utf-8'))
+    except Exception as e:
+        print('cannot read replay file: %s' % e)
+        return 2
+    oid = rec.get('obligation')
+    print('replay property=%s obligation=%s' % (prop, oid))
+    print('  obligation: %s' % (rec.get('obligation_text') or '')[:300])
+    print('  verifier said: %s' % rec.get('verifier_message'))
+    nat = rec.get('native_replay')
+    if nat and nat.get('cmd'):
+        try:
+            info = gen.generate(REPO, os.path.join(VERIF, 'contracts'))
+            b = native.build(info)
+        except Exception as e:
+            print('  cannot build against the current tree: %s' % e)
+            return 2
+        cmd = nat['cmd']
+        if cmd[0] == 'cellcheck':
+            rc, out, err = native.run(b, cmd)
+            print('  native: replayer %s\n    -> %s' % (' '.join(cmd), out or err))
+            return 1 if out.startswith('FAILS') else (0 if out.startswith('HOLDS') else 2)
+        if cmd[0] == 'kanicex':
+            from . import kanicex
+            return kanicex.replay(rec, b)
+        sc = cex.scancode_cell(prop, oid, info, b)
+        if sc:
+            print('  native: replayer %s\n    expected: %s\n    observed: %s' % (' '.join(sc['native_cmd']), sc['expected'], sc['observed']))
+            return 1 if sc['reproduced'] else 0
+    # no concrete input: re-decide the obligation with the verifier
+    p = subprocess.run([sys.executable, os.path.join(VERIF, 'check'), prop], capture_output=True, text=True)
+    again = [l for l in p.stdout.split('\n') if l.startswith('VIOLATION') and ('obligation=%s' % oid) in l]
+    print('  no concrete input recorded; re-verified the property: %s' % ('the obligation fails again' if again else 'the obligation is discharged now (check exit %d)' % p.returncode))
+    if again:
+        return 1
+    return 0 if p.returncode == 0 else (1 if p.returncode == 1 and not oid else (0 if p.returncode == 1 else 2))
